@@ -56,6 +56,60 @@ def frame(payload: bytes) -> bytes:
     return body + crc24q_table(body).to_bytes(3, "big")
 
 
+def frame_with_trailer(prefix: bytes, want: int, suffix: bytes = b"") -> bytes:
+    """
+    A valid frame whose payload is prefix + 3 solved bytes + suffix and whose CRC-24Q trailer is
+    exactly ``want`` (CRC-24Q is linear, so the three free bytes are found by Gaussian
+    elimination over GF(2); the map free bytes -> trailer is a bijection).
+    """
+    n = len(prefix) + 3 + len(suffix)
+    hdr = b"\xd3" + n.to_bytes(2, "big")
+
+    def crc_of(x):
+        return crc24q_table(hdr + prefix + x.to_bytes(3, "big") + suffix)
+
+    r0 = crc_of(0)
+    cols = [crc_of(1 << i) ^ r0 for i in range(24)]
+    target = want ^ r0
+    # solve sum x_i cols[i] = target
+    rows = [(cols[i], 1 << i) for i in range(24)]
+    x = 0
+    for bit in range(23, -1, -1):
+        piv = next((k for k, (c, _m) in enumerate(rows) if c >> bit & 1), None)
+        if piv is None:
+            continue
+        pc, pm = rows.pop(piv)
+        rows = [((c ^ pc, m ^ pm) if c >> bit & 1 else (c, m)) for c, m in rows]
+        if target >> bit & 1:
+            target ^= pc
+            x ^= pm
+    out = hdr + prefix + x.to_bytes(3, "big") + suffix
+    out += crc24q_table(out).to_bytes(3, "big")
+    if target or out[-3:] != want.to_bytes(3, "big"):
+        from .core import Broken  # pylint: disable=import-outside-toplevel
+
+        raise Broken("frame_with_trailer: no solution")
+    return out
+
+
+def solve3(want: int) -> bytes:
+    """The unique 3-byte string whose CRC-24Q is ``want`` (an error pattern in the trailer with
+    that syndrome)."""
+    cols = [crc24q_table((1 << i).to_bytes(3, "big")) for i in range(24)]
+    rows = [(cols[i], 1 << i) for i in range(24)]
+    x, target = 0, want
+    for bit in range(23, -1, -1):
+        piv = next((k for k, (c, _m) in enumerate(rows) if c >> bit & 1), None)
+        if piv is None:
+            continue
+        pc, pm = rows.pop(piv)
+        rows = [((c ^ pc, m ^ pm) if c >> bit & 1 else (c, m)) for c, m in rows]
+        if target >> bit & 1:
+            target ^= pc
+            x ^= pm
+    return x.to_bytes(3, "big")
+
+
 def frame_ok(raw: bytes) -> bool:
     """Reference well-formedness test of a complete RTCM3 frame."""
     return (
